@@ -144,8 +144,8 @@ class Policy:
         if self.F.loopy(g) and not self.inline_loops:
             if g.trait_short in ("Next", "Reset") and recv_path is not None:
                 return "step"
-            if g.self_struct is None and depth < self.inline_depth:
-                return "inline"  # a free function over its arguments (loops are summarised): no receiver state to keep modular
+            if (g.self_struct is None or fn_params(g).get(1) != "self") and depth < self.inline_depth:
+                return "inline"  # a function of its arguments only (loops are summarised): no receiver state to keep modular
             return "ucall"
         if depth >= self.inline_depth:
             return "ucall"
@@ -188,7 +188,10 @@ class Exec:
             inner = self.iter_item(st, itv[1], loopid)
             if inner is None:
                 return None
-            iv = inner[2] if inner[0] == "ref" else inner
+            iv = ("ivar", loopid)  # position = loop variable (slices and ranges are iterated from their start)
+            b_ = self.ivar_bounds.get(iv)
+            if b_ is not None and b_["start"] != cu(0):
+                iv = fold("-", iv, b_["start"])
             return ("adt", "tuple", (0, ""), (("0", iv), ("1", inner)), False)
         if isinstance(itv, tuple) and itv[0] == "mapiter":
             inner = self.iter_item(st, itv[1], loopid)
@@ -464,12 +467,21 @@ class Exec:
                     continue  # temp born inside the body
             if v != old:
                 changed[k] = old
+        # a loop-carried local tuple (`best = (i, v)`) is carried component-wise, like the accumulator of a fold
+        for k in list(changed):
+            old = changed[k]
+            if not isinstance(k[0], str) and isinstance(old, tuple) and old[0] == "adt" and old[1] == "tuple":
+                del changed[k]
+                for nm_, ov_ in old[3]:
+                    changed[k + (nm_,)] = ov_
         iv = ("ivar", loopid)
         # --- fill idiom
         fill = {}
         is_fill = bool(changed)
         for k, old in changed.items():
-            v = out1.store.m[k]
+            v = out1.store.m.get(k)
+            if v is None:
+                v = self._try_read(out1, k)
             if isinstance(k[0], str) and isinstance(v, tuple) and v[0] == "store" and v[1] == old and v[2] == iv \
                     and (item == iv or (isinstance(item, tuple) and item[0] == "ref" and item[1] == k and item[2] == iv)):
                 from terms import subterms
@@ -1454,6 +1466,15 @@ class Exec:
             return ("conv", name, args[0])
         if re.search(r"default::Default", n) and not args:
             return ("default", name)
+        if re.search(r"ops::(function::)?(Fn|FnMut|FnOnce)(<.*>)?>?::call(_mut|_once)?$", n) and len(args) == 2:
+            clo = self.deref_val(st, args[0])
+            tup = args[1]
+            if isinstance(clo, tuple) and clo[0] in ("closure", "fn") and isinstance(tup, tuple) and ((tup[0] == "adt" and tup[1] == "tuple") or tup == UNIT):
+                cargs = [v for _, v in tup[3]] if tup != UNIT else []
+                if clo[0] == "fn":
+                    g_ = self.F.fn_by_path.get(clo[1])
+                    return self.inline(st, g_, cargs) if g_ is not None else self.std_call(st, {"path": clo[1], "path_args": clo[1]}, clo[1], cargs, t)
+                return self.call_closure(st, clo, cargs)
         if re.search(r"num::(nonzero::)?NonZero(::<.*>)?::new$", n) and len(args) == 1:
             v = dv[0]
             if is_const(v):
